@@ -20,6 +20,7 @@ Lemma add_accepted k a1 a2 a3 s s' r cbs cmds :
 Proof. unfold do_add. destruct (driver_active s) eqn:Ea; cbn [negb]; [|intros H; inversion H].
   destruct (closed s) eqn:Ec; [intros H; inversion H|].
   destruct (kind_eqb k KCtr && ((MAX_KEY <? a2) || (MAX_LABEL <? a3))); [intros H; inversion H|].
+  destruct (ring_full s); [intros H; inversion H|].
   intros H. inversion H; subst. clear H. repeat split; auto.
   - rewrite getm_setm_same. apply lookup_ins_same.
   - rewrite setm_next_corr. reflexivity.
@@ -27,18 +28,23 @@ Proof. unfold do_add. destruct (driver_active s) eqn:Ea; cbn [negb]; [|intros H;
     + apply kind_eqb_eq in E. subst. rewrite getm_set_next_corr. apply lookup_ins_other. destruct Hne; congruence.
     + rewrite getm_set_next_corr. reflexivity. Qed.
 
+(* a rejected add writes nothing; it changes nothing, except that a command refused by a full ring has used up its
+   correlation id *)
 Lemma add_rejected k a1 a2 a3 s s' e cbs cmds :
-  do_add k a1 a2 a3 s = (s', (Err e, cbs, cmds)) -> s' = s /\ cbs = [] /\ cmds = [].
+  do_add k a1 a2 a3 s = (s', (Err e, cbs, cmds)) ->
+  (s' = s \/ (ring_full s = true /\ e = IllegalState /\ s' = set_next_corr (next_corr s + 1) s)) /\ cbs = [] /\ cmds = [].
 Proof. unfold do_add. destruct (negb (driver_active s)); [intros H; inversion H; auto|].
   destruct (closed s); [intros H; inversion H; auto|].
-  destruct (kind_eqb k KCtr && ((MAX_KEY <? a2) || (MAX_LABEL <? a3))); intros H; inversion H; auto. Qed.
+  destruct (kind_eqb k KCtr && ((MAX_KEY <? a2) || (MAX_LABEL <? a3))); [intros H; inversion H; auto|].
+  destruct (ring_full s); intros H; inversion H; auto. Qed.
 
 Lemma add_result k a1 a2 a3 s :
   let r := fst (fst (snd (do_add k a1 a2 a3 s))) in
-  r = Ok [next_corr s] \/ r = Err DriverInactive \/ r = Err Closed \/ r = Err IllegalArg.
+  r = Ok [next_corr s] \/ r = Err DriverInactive \/ r = Err Closed \/ r = Err IllegalArg \/ r = Err IllegalState.
 Proof. unfold do_add. destruct (negb (driver_active s)); cbn; auto.
   destruct (closed s); cbn; auto.
-  destruct (kind_eqb k KCtr && ((MAX_KEY <? a2) || (MAX_LABEL <? a3))); cbn; auto. Qed.
+  destruct (kind_eqb k KCtr && ((MAX_KEY <? a2) || (MAX_LABEL <? a3))); cbn; auto.
+  destruct (ring_full s); cbn; auto 6. Qed.
 
 Lemma fresh_id s k : inv s -> lookup (next_corr s) (getm k s) = None /\ client_id s <> next_corr s.
 Proof. intros I. split.
@@ -53,9 +59,10 @@ Definition cmd_id (c : cmd) : Z := match c with Cmd _ _ i _ => i end.
 Definition cmd_client (c : cmd) : Z := match c with Cmd _ cid _ _ => cid end.
 Definition cmd_ty (c : cmd) : Z := match c with Cmd t _ _ _ => t end.
 
+(* no command (the correlation id is used up all the same when the ring refused the write), or exactly one *)
 Definition one_or_none (s s' : st) (cmds : list cmd) : Prop :=
   client_id s' = client_id s /\
-  ((cmds = [] /\ next_corr s' = next_corr s) \/
+  ((cmds = [] /\ (next_corr s' = next_corr s \/ next_corr s' = next_corr s + 1)) \/
    (exists ty args, cmds = [Cmd ty (client_id s) (next_corr s) args] /\ next_corr s' = next_corr s + 1)).
 
 Lemma close_all_ids s : next_corr (fst (fst (close_all s))) = next_corr s /\ client_id (fst (fst (close_all s))) = client_id s.
@@ -103,9 +110,9 @@ Proof. unfold heartbeat_check.
 
 Lemma do_release_cmds k r imgs s :
   one_or_none s (fst (do_release k r imgs s)) (snd (snd (do_release k r imgs s))).
-Proof. unfold do_release, one_or_none. destruct (lookup r (getm k s)); cbn.
-  - rewrite setm_client_id, setm_next_corr. split; auto. right. eauto.
-  - auto. Qed.
+Proof. unfold do_release, one_or_none. destruct (lookup r (getm k s)); [|cbn; auto].
+  destruct (ring_full s); [destruct k|]; cbn [fst snd]; rewrite setm_client_id, setm_next_corr; cbn [client_id next_corr set_next_corr];
+    (split; [reflexivity|]); try (left; split; [reflexivity|right; reflexivity]); right; eauto. Qed.
 
 Lemma dtor_user_cmds k r o s : one_or_none s (fst (dtor_user k r o s)) (snd (snd (dtor_user k r o s))).
 Proof. unfold dtor_user. destruct k; try apply do_release_cmds; destruct (o_closed o); try apply do_release_cmds;
@@ -113,7 +120,8 @@ Proof. unfold dtor_user. destruct k; try apply do_release_cmds; destruct (o_clos
 
 Lemma step_cmds c s o : one_or_none s (fst (step c s o)) (snd (snd (step c s o))).
 Proof. destruct o; cbn [step].
-  - unfold do_add, one_or_none. repeat dmatch; cbn; auto. rewrite setm_client_id, setm_next_corr. split; auto. right. eauto.
+  - unfold do_add, one_or_none. repeat dmatch; cbn [fst snd]; auto.
+    rewrite setm_client_id, setm_next_corr. cbn. split; auto. right. eauto.
   - unfold do_find, one_or_none. repeat dmatch; cbn; rewrite ?setm_client_id, ?setm_next_corr; auto.
   - unfold do_drop. destruct k; try (unfold one_or_none; cbn; tauto);
     (destruct (user_obj _ r s) as [o|]; [|unfold one_or_none; cbn; tauto]);
@@ -122,7 +130,8 @@ Proof. destruct o; cbn [step].
   - unfold do_peek, one_or_none. destruct (user_obj k r s); cbn; auto.
   - unfold do_close. pose proof (close_all_ids s) as H. destruct (close_all s) as [[s1 cbs] hang]. cbn [fst] in H.
     destruct H as [Hn Hc]. unfold one_or_none. destruct hang; cbn; [auto|]. destruct (close_sent s1); cbn; [auto|].
-    split; auto. right. rewrite Hn, Hc. eauto.
+    split; auto. destruct (ring_full s1); [left; split; auto; right; lia|]. right. rewrite Hn, Hc. eauto.
+  - unfold one_or_none. cbn. auto.
   - unfold one_or_none. cbn. auto.
   - unfold one_or_none. cbn. auto.
   - unfold one_or_none. cbn. auto.
@@ -134,33 +143,45 @@ Proof. destruct o; cbn [step].
       pose proof (heartbeat_check_ids c s1) as H. destruct (heartbeat_check c s1) as [[[s2 cbs2] hang2] r]. cbn [fst] in H.
       destruct hang2; cbn; intuition congruence. Qed.
 
-Fixpoint consecutive_from (n : Z) (l : list Z) : Prop :=
-  match l with [] => True | x :: t => x = n /\ consecutive_from (n + 1) t end.
+(* strictly increasing, starting at n or above *)
+Fixpoint increasing_from (n : Z) (l : list Z) : Prop :=
+  match l with [] => True | x :: t => n <= x /\ increasing_from (x + 1) t end.
+
+Lemma increasing_weaken n n' l : n' <= n -> increasing_from n l -> increasing_from n' l.
+Proof. destruct l; cbn; auto. intros H [A B]. split; auto. lia. Qed.
 
 Definition all_cmds (xs : list out) : list cmd := flat_map (fun x : out => snd x) xs.
 
-(* over any history the correlation ids of the commands written are next_corr, next_corr+1, ... and every command
-   carries the client id *)
+(* over any history the correlation ids of the commands written are strictly increasing from next_corr on (consecutive
+   as long as the ring refuses no write) and every command carries the client id *)
 Lemma run_cmd_ids c ops : forall s,
-  consecutive_from (next_corr s) (map cmd_id (all_cmds (snd (run c s ops)))) /\
+  increasing_from (next_corr s) (map cmd_id (all_cmds (snd (run c s ops)))) /\
   Forall (fun x => cmd_client x = client_id s) (all_cmds (snd (run c s ops))) /\
-  next_corr (fst (run c s ops)) = next_corr s + Z.of_nat (length (all_cmds (snd (run c s ops)))).
+  next_corr s + Z.of_nat (length (all_cmds (snd (run c s ops)))) <= next_corr (fst (run c s ops)).
 Proof. induction ops as [|o ops IH]; intros s; cbn.
   - repeat split; auto. lia.
   - pose proof (step_cmds c s o) as H. destruct (step c s o) as [s1 [[r cbs] cmds]]. cbn [fst snd] in H.
     specialize (IH s1). destruct (run c s1 ops) as [s2 xs]. cbn [fst snd] in *. unfold all_cmds. cbn [flat_map snd].
     fold (all_cmds xs). destruct H as [Hc [[-> Hn]|(ty & args & -> & Hn)]]; cbn [app map length].
-    + rewrite Hn, Hc in IH. exact IH.
-    + rewrite Hn, Hc in IH. destruct IH as (A & B & C). repeat split; auto.
-      rewrite C. cbn [length]. lia. Qed.
+    + rewrite Hc in IH. destruct IH as (A & B & C). repeat split; auto; [|lia].
+      eapply increasing_weaken; [|exact A]. lia.
+    + rewrite Hc in IH. destruct IH as (A & B & C). cbn [cmd_id increasing_from]. split; [split|split].
+      * lia.
+      * rewrite <- Hn. exact A.
+      * constructor; auto.
+      * cbn [length]. lia. Qed.
 
-(* consecutive ids are pairwise distinct and increasing *)
-Lemma consecutive_lt n l : consecutive_from n l -> Forall (fun x => n <= x) l /\ NoDup l.
+(* increasing ids are pairwise distinct *)
+Lemma increasing_lt n l : increasing_from n l -> Forall (fun x => n <= x) l /\ NoDup l.
 Proof. revert n. induction l as [|x t IH]; intros n H; cbn in *.
   - split; constructor.
-  - destruct H as [-> H]. destruct (IH _ H) as [A B]. split.
+  - destruct H as [Hx H]. destruct (IH _ H) as [A B]. split.
     + constructor; [lia|]. eapply Forall_impl; [|exact A]. cbn. intros. lia.
     + constructor; auto. intros Hin. rewrite Forall_forall in A. specialize (A _ Hin). lia. Qed.
+
+(* while the ring refuses nothing the ids are consecutive *)
+Fixpoint consecutive_from (n : Z) (l : list Z) : Prop :=
+  match l with [] => True | x :: t => x = n /\ consecutive_from (n + 1) t end.
 
 (* =================================================================================================== *)
 (* find_*                                                                                              *)
@@ -294,7 +315,8 @@ Proof. intros Hl He. destruct (kind_eqb k k') eqn:E.
   - apply keeps_remove_other. left. apply kind_eqb_neq in E. congruence. Qed.
 
 Lemma do_add_keeps k r k' a1 a2 a3 s : inv s -> keeps k r s (fst (do_add k' a1 a2 a3 s)).
-Proof. intros I. unfold do_add. repeat dmatch; try apply keeps_refl. cbn [fst].
+Proof. intros I. unfold do_add. repeat dmatch; try apply keeps_refl;
+    try (cbn [fst]; apply keeps_same_maps; intros; apply getm_set_next_corr; fail). cbn [fst].
   intros o Ho _. exists o. split; [|apply obj_same_refl]. unfold hobj in *. rewrite getm_setm.
   destruct (kind_eqb k k') eqn:E; rewrite getm_set_next_corr; auto. apply kind_eqb_eq in E. subst k'.
   destruct (lookup r (getm k s)) as [e|] eqn:El; [|discriminate].
@@ -311,10 +333,17 @@ Proof. unfold do_find. destruct (closed s); [apply keeps_refl|].
     try (eapply keeps_remove_noobj; eauto; fail);
     apply Hh; intros o1 Ho1 Hu1; congruence. Qed.
 
+Lemma keeps_upd_other k r k' r' f s : k' <> k \/ r' <> r -> keeps k r s (setm k' (upd r' f (getm k' s)) s).
+Proof. intros Hne o Ho _. unfold hobj in *. rewrite getm_setm. destruct (kind_eqb k k') eqn:E.
+  - apply kind_eqb_eq in E. subst k'. rewrite lookup_upd_other by (destruct Hne; congruence).
+    exists o. split; auto. apply obj_same_refl.
+  - exists o. split; auto. apply obj_same_refl. Qed.
+
 Lemma do_release_keeps k r k' r' imgs s : k' <> k \/ r' <> r -> keeps k r s (fst (do_release k' r' imgs s)).
-Proof. intros Hne. unfold do_release. destruct (lookup r' (getm k' s)); [|apply keeps_refl]. cbn [fst].
-  eapply keeps_trans; [apply (keeps_same_maps k r s (set_next_corr (next_corr s + 1) s)); intros; apply getm_set_next_corr|].
-  apply keeps_remove_other; auto. Qed.
+Proof. intros Hne. unfold do_release. destruct (lookup r' (getm k' s)); [|apply keeps_refl].
+  assert (H0 : keeps k r s (set_next_corr (next_corr s + 1) s)) by (apply keeps_same_maps; intros; apply getm_set_next_corr).
+  destruct (ring_full s); [destruct k'|]; cbn [fst]; (eapply keeps_trans; [exact H0|]);
+    try (apply keeps_remove_other; auto); apply keeps_upd_other; auto. Qed.
 
 Lemma do_drop_eq k r s :
   do_drop k r s =
@@ -340,7 +369,7 @@ Proof. intros Hne. rewrite do_drop_eq.
 Lemma on_error_keeps k r corr code s : keeps k r s (on_error corr code s).
 Proof. unfold on_error.
   assert (H : forall kk e, lookup corr (getm kk s) = Some e -> keeps k r s (setm kk (upd corr (set_error code) (getm kk s)) s)).
-  { intros kk e El. apply (keeps_upd_at k r kk corr _ s e El). intros o Ho _. exists o. split; [exact Ho|apply obj_same_refl]. }
+  { intros kk e El. apply (keeps_upd_at k r kk corr _ s e El). intros o Ho _. exists o. split; [rewrite set_error_obj; exact Ho|apply obj_same_refl]. }
   destruct (lookup corr (subs s)) eqn:E1. { apply (H KSub e E1). }
   destruct (lookup corr (pubs s)) eqn:E2. { apply (H KPub e E2). }
   destruct (lookup corr (xpubs s)) eqn:E3. { apply (H KXPub e E3). }
@@ -456,6 +485,7 @@ Proof. intros I Hne. destruct o; cbn [step].
   - cbn [fst]. split; auto. left. apply keeps_same_maps. intros kk; destruct kk; reflexivity.
   - cbn [fst]. split; auto. left. apply keeps_same_maps. intros kk; destruct kk; reflexivity.
   - cbn [fst]. split; auto. left. apply keeps_same_maps. intros kk; destruct kk; reflexivity.
+  - cbn [fst]. split; auto. left. apply keeps_same_maps. intros kk; destruct kk; reflexivity.
   - destruct (do_work_stable c b s I) as [A B]. split; auto. Qed.
 
 Lemma keeps_held k r h s s' : keeps k r s s' -> held k r h s -> held k r h s'.
@@ -486,18 +516,18 @@ Lemma user_obj_held k r h s : held k r h s -> exists o, user_obj k r s = Some o 
 Proof. intros (o & Ho & Hu & Hh). unfold hobj in *. unfold user_obj. destruct (lookup r (getm k s)) as [e|]; [|discriminate].
   rewrite Ho, Hu. exists o. repeat split; auto. Qed.
 
-Lemma release_held k r h s : k <> KDest -> inv s -> held k r h s ->
+Lemma release_held k r h s : k <> KDest -> inv s -> held k r h s -> ring_full s = false ->
   exists s' cbs,
     do_drop k r s = (s', (Ok [1], cbs, [Cmd (remove_cmd_type k) (client_id s) (next_corr s) [r]])) /\
     lookup r (getm k s') = None /\ next_corr s' = next_corr s + 1 /\
     (forall k' r', k' <> k \/ r' <> r -> lookup r' (getm k' s') = lookup r' (getm k' s)).
-Proof. intros Hk I Hh. destruct (user_obj_held _ _ _ _ Hh) as (o & Hu & Ho & _).
+Proof. intros Hk I Hh Hrf. destruct (user_obj_held _ _ _ _ Hh) as (o & Hu & Ho & _).
   unfold hobj in Ho. destruct (lookup r (getm k s)) as [e|] eqn:El; [|discriminate].
   destruct (inv_lookup _ _ _ _ I El) as [_ [_ Hop]]. specialize (Hop o Ho).
   assert (Hrel : forall imgs, exists cbs, do_release k r imgs s =
              (setm k (remove r (getm k (set_next_corr (next_corr s + 1) s))) (set_next_corr (next_corr s + 1) s),
               (cbs, [Cmd (remove_cmd_type k) (client_id s) (next_corr s) [r]]))).
-  { intros imgs. unfold do_release. rewrite El. eauto. }
+  { intros imgs. unfold do_release. rewrite El, Hrf. eauto. }
   assert (Hd : exists cbs, dtor_user k r o s =
              (setm k (remove r (getm k (set_next_corr (next_corr s + 1) s))) (set_next_corr (next_corr s + 1) s),
               (cbs, [Cmd (remove_cmd_type k) (client_id s) (next_corr s) [r]]))).
@@ -508,6 +538,49 @@ Proof. intros Hk I Hh. destruct (user_obj_held _ _ _ _ Hh) as (o & Hu & Ho & _).
   - cbn. rewrite setm_next_corr. reflexivity.
   - intros k' r' Hne. rewrite getm_set_orphans, getm_setm. destruct (kind_eqb k' k) eqn:E; rewrite getm_set_next_corr; auto.
     apply kind_eqb_eq in E. subst. apply lookup_remove_other. destruct Hne; congruence. Qed.
+
+(* the same drop while the ring refuses the Remove command: no command; a subscription (exclusive publication) is
+   released locally all the same - its images reported, the registration gone; a publication / counter keeps its
+   registration with a dead handle (release_publication / release_counter return the error) *)
+Lemma next_corr_set_orphans v s : next_corr (set_orphans v s) = next_corr s. Proof. reflexivity. Qed.
+
+Lemma release_held_refused k r h s : k <> KDest -> inv s -> held k r h s -> ring_full s = true ->
+  exists s' cbs, do_drop k r s = (s', (Ok [1], cbs, [])) /\ next_corr s' = next_corr s + 1 /\
+    (forall k' r', k' <> k \/ r' <> r -> lookup r' (getm k' s') = lookup r' (getm k' s)) /\
+    match k with
+    | KPub | KCtr => exists e, lookup r (getm k s') = Some e /\ e_status e = Dropped /\ e_obj e = None
+    | _ => lookup r (getm k s') = None
+    end.
+Proof. intros Hk I Hh Hrf. destruct (user_obj_held _ _ _ _ Hh) as (o & Hu & Ho & _).
+  unfold hobj in Ho. destruct (lookup r (getm k s)) as [e|] eqn:El; [|discriminate].
+  destruct (inv_lookup _ _ _ _ I El) as [_ [_ Hop]]. specialize (Hop o Ho).
+  assert (Hfr : forall (m : amap -> amap), (forall r', r' <> r -> lookup r' (m (getm k s)) = lookup r' (getm k s)) ->
+            forall k' r', k' <> k \/ r' <> r ->
+            lookup r' (getm k' (setm k (m (getm k (set_next_corr (next_corr s + 1) s))) (set_next_corr (next_corr s + 1) s))) = lookup r' (getm k' s)).
+  { intros m Hm k' r' Hne. rewrite getm_setm. destruct (kind_eqb k' k) eqn:E; rewrite getm_set_next_corr; auto.
+    apply kind_eqb_eq in E. subst. apply Hm. destruct Hne; congruence. }
+  assert (Hrem : forall cbs : list cb, exists s', (setm k (remove r (getm k (set_next_corr (next_corr s + 1) s))) (set_next_corr (next_corr s + 1) s)) = s' /\
+            next_corr s' = next_corr s + 1 /\ (forall k' r', k' <> k \/ r' <> r -> lookup r' (getm k' s') = lookup r' (getm k' s)) /\
+            lookup r (getm k s') = None).
+  { intros _. eexists. split; [reflexivity|]. split; [rewrite setm_next_corr; reflexivity|]. split.
+    - apply (Hfr (remove r)). intros. apply lookup_remove_other; auto.
+    - rewrite getm_setm_same. apply lookup_remove_same. }
+  assert (Hupd : exists s', (setm k (upd r (fun e => set_obj None (set_status Dropped e)) (getm k (set_next_corr (next_corr s + 1) s))) (set_next_corr (next_corr s + 1) s)) = s' /\
+            next_corr s' = next_corr s + 1 /\ (forall k' r', k' <> k \/ r' <> r -> lookup r' (getm k' s') = lookup r' (getm k' s)) /\
+            exists e', lookup r (getm k s') = Some e' /\ e_status e' = Dropped /\ e_obj e' = None).
+  { eexists. split; [reflexivity|]. split; [rewrite setm_next_corr; reflexivity|]. split.
+    - apply (Hfr (upd r _)). intros. apply lookup_upd_other; auto.
+    - rewrite getm_setm_same, getm_set_next_corr, lookup_upd_same, El. cbn. eauto. }
+  rewrite do_drop_eq, Hu. unfold dtor_user.
+  destruct k; try congruence; rewrite ?Hop; unfold do_release; rewrite El, Hrf; cbn [fst snd].
+  - destruct Hupd as (s' & <- & A & B & C). eexists. eexists. split; [reflexivity|]. rewrite next_corr_set_orphans. split; [exact A|]. split; [|exact C].
+    intros k' r' Hne. rewrite getm_set_orphans. apply B; auto.
+  - destruct (Hrem []) as (s' & <- & A & B & C). eexists. eexists. split; [reflexivity|]. rewrite next_corr_set_orphans. split; [exact A|]. split; [|rewrite getm_set_orphans; exact C].
+    intros k' r' Hne. rewrite getm_set_orphans. apply B; auto.
+  - destruct (Hrem []) as (s' & <- & A & B & C). eexists. eexists. split; [reflexivity|]. rewrite next_corr_set_orphans. split; [exact A|]. split; [|rewrite getm_set_orphans; exact C].
+    intros k' r' Hne. rewrite getm_set_orphans. apply B; auto.
+  - destruct Hupd as (s' & <- & A & B & C). eexists. eexists. split; [reflexivity|]. rewrite next_corr_set_orphans. split; [exact A|]. split; [|exact C].
+    intros k' r' Hne. rewrite getm_set_orphans. apply B; auto. Qed.
 
 (* =================================================================================================== *)
 (* ClientClose: written by the first close, never again, by nothing else                               *)
@@ -521,7 +594,8 @@ Lemma remove_type_not_close k : (remove_cmd_type k =? GenConsts.CMD_ClientClose)
 Proof. destruct k; reflexivity. Qed.
 
 Lemma do_release_no_close k r imgs s : filter is_client_close (snd (snd (do_release k r imgs s))) = [].
-Proof. unfold do_release. dmatch; cbn [snd filter]; auto. unfold is_client_close, cmd_ty. rewrite remove_type_not_close. reflexivity. Qed.
+Proof. unfold do_release. dmatch; [|reflexivity]. destruct (ring_full s); [destruct k; reflexivity|].
+  cbn [snd filter]. unfold is_client_close, cmd_ty. rewrite remove_type_not_close. reflexivity. Qed.
 
 Lemma close_all_cs s : close_sent (fst (fst (close_all s))) = close_sent s.
 Proof. pose proof (close_all_scalars s) as H. cbn in H. tauto. Qed.
@@ -549,10 +623,36 @@ Proof. unfold heartbeat_check.
   assert (H4 : close_sent (fst (hc_resources (now s) s3)) = close_sent s3) by (unfold hc_resources; dmatch; reflexivity).
   destruct (hc_resources (now s) s3) as [s4 r4]. cbn [fst] in *. cbn in H3. congruence. Qed.
 
+Lemma close_all_rf s : ring_full (fst (fst (close_all s))) = ring_full s.
+Proof. apply close_all_ring. Qed.
+Lemma on_event_rf ev s : ring_full (fst (fst (on_event ev s))) = ring_full s.
+Proof. destruct ev; cbn [on_event]; repeat dmatch; cbn [fst]; rewrite ?setm_ring_full; auto.
+  - unfold on_error. repeat dmatch; rewrite ?setm_ring_full; auto.
+  - pose proof (close_all_rf s) as H. rewrite Heqp in H. exact H. Qed.
+Lemma close_all_rf' s s1 cbs hang : close_all s = (s1, cbs, hang) -> ring_full s1 = ring_full s.
+Proof. intros H. pose proof (close_all_rf s) as X. rewrite H in X. exact X. Qed.
+Lemma hc_service_rf c t s : ring_full (fst (fst (hc_service c t s))) = ring_full s.
+Proof. unfold hc_service. dmatch; auto. destruct (close_all s) as [[s1 cbs] hang] eqn:E. eapply close_all_rf'; eauto. Qed.
+Lemma hc_heartbeat_rf s : ring_full (fst (fst (hc_heartbeat s))) = ring_full s.
+Proof. unfold hc_heartbeat. destruct (hb_bound s); destruct (hb_env s =? 1); auto.
+  destruct (close_all s) as [[s1 cbs] hang] eqn:E. eapply close_all_rf'; eauto. Qed.
+Lemma hc_keepalive_rf c t s : ring_full (fst (fst (fst (hc_keepalive c t s)))) = ring_full s.
+Proof. unfold hc_keepalive. dmatch; auto.
+  assert (H1 : ring_full (fst (hc_driver c t s)) = ring_full s) by (unfold hc_driver; dmatch; reflexivity).
+  destruct (hc_driver c t s) as [s' cbs']. cbn [fst] in H1.
+  pose proof (hc_heartbeat_rf s') as H2. destruct (hc_heartbeat s') as [[s'' cbs''] hang'']. cbn [fst] in *. cbn. congruence. Qed.
+Lemma heartbeat_check_scalars_rf c s : ring_full (fst (fst (fst (heartbeat_check c s)))) = ring_full s.
+Proof. unfold heartbeat_check.
+  pose proof (hc_service_rf c (now s) s) as H1. destruct (hc_service c (now s) s) as [[s1 cbs1] hang1]. cbn [fst] in H1.
+  pose proof (hc_keepalive_rf c (now s) (set_t_work (now s) s1)) as H3.
+  destruct (hc_keepalive c (now s) (set_t_work (now s) s1)) as [[[s3 cbs3] hang3] r3]. cbn [fst] in H3.
+  assert (H4 : ring_full (fst (hc_resources (now s) s3)) = ring_full s3) by (unfold hc_resources; dmatch; reflexivity).
+  destruct (hc_resources (now s) s3) as [s4 r4]. cbn [fst] in *. cbn in H3. congruence. Qed.
+
 Lemma step_close_sent c s o :
   match o with
   | Close => close_sent (fst (step c s o)) = true /\
-             length (filter is_client_close (snd (snd (step c s o)))) = (if close_sent s then 0%nat else 1%nat)
+             length (filter is_client_close (snd (snd (step c s o)))) = (if close_sent s then 0%nat else if ring_full s then 0%nat else 1%nat)
   | _ => close_sent (fst (step c s o)) = close_sent s /\ filter is_client_close (snd (snd (step c s o))) = []
   end.
 Proof. destruct o; cbn [step].
@@ -561,12 +661,14 @@ Proof. destruct o; cbn [step].
   - unfold do_find. repeat dmatch; cbn [fst snd filter]; rewrite ?setm_close_sent; auto.
   - rewrite do_drop_eq. destruct k; cbn [fst snd filter]; auto; destruct (user_obj _ r s); cbn [fst snd filter]; auto;
     (split; [change (close_sent (set_orphans ?a ?b)) with (close_sent b);
-             unfold dtor_user; try destruct (o_closed o); auto; unfold do_release; dmatch; cbn [fst]; rewrite ?setm_close_sent; auto
+             unfold dtor_user; try destruct (o_closed o); auto; unfold do_release; dmatch; auto;
+             destruct (ring_full s); cbn [fst]; rewrite ?setm_close_sent; auto
             |unfold dtor_user; try destruct (o_closed o); auto; apply do_release_no_close]).
   - unfold do_peek. dmatch; cbn; auto.
-  - unfold do_close. pose proof (close_all_scalars s) as H. pose proof (close_all_no_hang s) as Hh.
-    destruct (close_all s) as [[s1 cbs] hang]. cbn in H, Hh. subst hang.
-    destruct H as (_ & _ & _ & _ & Hcs & _). rewrite Hcs. destruct (close_sent s) eqn:E; cbn; auto.
+  - unfold do_close. pose proof (close_all_scalars s) as H. pose proof (close_all_no_hang s) as Hh. pose proof (close_all_ring s) as Hr.
+    destruct (close_all s) as [[s1 cbs] hang]. cbn in H, Hh, Hr. subst hang.
+    destruct H as (_ & _ & _ & _ & Hcs & _). rewrite Hcs, Hr. destruct (close_sent s) eqn:E; cbn; auto. destruct (ring_full s); cbn; auto.
+  - cbn. auto.
   - cbn. auto.
   - cbn. auto.
   - cbn. auto.
@@ -577,17 +679,51 @@ Proof. destruct o; cbn [step].
       destruct hang2; cbn [fst snd filter] in *; split; auto; congruence.
 Qed.
 
-(* over any history: exactly one ClientClose iff the history contains a close (and none was sent before) *)
+(* only SetRingFull changes the ring flag *)
+Lemma step_ring_full c s o :
+  ring_full (fst (step c s o)) = match o with SetRingFull b => b | _ => ring_full s end.
+Proof. destruct o; cbn [step]; try reflexivity.
+  - unfold do_add. repeat dmatch; cbn [fst]; rewrite ?setm_ring_full; auto.
+  - unfold do_find. repeat dmatch; cbn [fst]; rewrite ?setm_ring_full; auto.
+  - rewrite do_drop_eq. destruct k; auto; destruct (user_obj _ r s); auto; cbn [fst];
+      change (ring_full (set_orphans ?a ?b)) with (ring_full b);
+      unfold dtor_user; try destruct (o_closed o); auto; unfold do_release; dmatch; auto;
+      destruct (ring_full s) eqn:E; cbn [fst]; rewrite ?setm_ring_full; cbn; auto.
+  - rewrite do_peek_state. reflexivity.
+  - unfold do_close. pose proof (close_all_ring s) as Hr. destruct (close_all s) as [[s1 cbs] hang]. cbn in Hr.
+    destruct hang; [exact Hr|]. destruct (close_sent s1); cbn; exact Hr.
+  - unfold do_work. destruct b; auto.
+    + cbn. pose proof (heartbeat_check_scalars_rf c s) as H. destruct (heartbeat_check c s) as [[[s2 cbs2] hang2] r]. destruct hang2; exact H.
+    + pose proof (on_event_rf e s) as H1. destruct (on_event e s) as [[s1 cbs1] hang1]. cbn in H1. destruct hang1; [exact H1|].
+      pose proof (heartbeat_check_scalars_rf c s1) as H. destruct (heartbeat_check c s1) as [[[s2 cbs2] hang2] r]. cbn in *. destruct hang2; cbn; congruence. Qed.
+
+(* how many ClientClose commands a history writes: one, by its first close, unless the ring refuses it then *)
+Fixpoint close_writes (sent full : bool) (ops : list op) : nat :=
+  match ops with
+  | [] => 0%nat
+  | Close :: t => ((if sent then 0 else if full then 0 else 1) + close_writes true full t)%nat
+  | SetRingFull b :: t => close_writes sent b t
+  | _ :: t => close_writes sent full t
+  end.
+
 Lemma client_close_once c ops : forall s,
-  count_close (snd (run c s ops)) =
-    (if close_sent s then 0%nat else if existsb (fun o => match o with Close => true | _ => false end) ops then 1%nat else 0%nat).
-Proof. induction ops as [|o ops IH]; intros s; cbn.
-  - destruct (close_sent s); reflexivity.
-  - pose proof (step_close_sent c s o) as H. destruct (step c s o) as [s1 [[r cbs] cmds]] eqn:Es. cbn [fst snd] in H.
-    specialize (IH s1). destruct (run c s1 ops) as [s2 xs]. cbn [snd] in *.
-    unfold count_close, all_cmds in *. cbn [flat_map snd]. rewrite filter_app, app_length. fold (all_cmds xs) in *.
-    destruct o; cbn [orb]; try (destruct H as [H1 H2]; rewrite H2, H1 in *; cbn [length plus]; rewrite IH; reflexivity).
-    destruct H as [H1 H2]. rewrite H2, IH, H1. destruct (close_sent s); reflexivity. Qed.
+  count_close (snd (run c s ops)) = close_writes (close_sent s) (ring_full s) ops.
+Proof. induction ops as [|o ops IH]; intros s; cbn [run close_writes]; [reflexivity|].
+  pose proof (step_close_sent c s o) as H. pose proof (step_ring_full c s o) as Hr.
+  destruct (step c s o) as [s1 [[r cbs] cmds]] eqn:Es. cbn [fst snd] in H, Hr.
+  specialize (IH s1). destruct (run c s1 ops) as [s2 xs]. cbn [snd] in *.
+  unfold count_close, all_cmds in *. cbn [flat_map snd]. rewrite filter_app, app_length. fold (all_cmds xs) in *.
+  destruct o; destruct H as [H1 H2]; rewrite H2, IH, H1, Hr; reflexivity. Qed.
+
+(* in particular: a history whose ring never refuses writes exactly one ClientClose iff it contains a close *)
+Lemma close_writes_no_refusal ops : (forall b, In (SetRingFull b) ops -> b = false) ->
+  forall sent, close_writes sent false ops =
+    (if sent then 0%nat else if existsb (fun o => match o with Close => true | _ => false end) ops then 1%nat else 0%nat).
+Proof. induction ops as [|o ops IH]; intros Hb sent; cbn [close_writes existsb]; [destruct sent; reflexivity|].
+  assert (Hb' : forall b, In (SetRingFull b) ops -> b = false) by (intros; apply Hb; right; auto).
+  destruct o; cbn [orb]; try (apply IH; auto).
+  - rewrite (IH Hb' true). destruct sent; reflexivity.
+  - rewrite (Hb b (or_introl eq_refl)). apply IH; auto. Qed.
 
 (* =================================================================================================== *)
 (* isolation: events for unknown / foreign ids change nothing; an event for r1 leaves every r2 <> r1   *)
@@ -670,6 +806,7 @@ Proof. destruct o; cbn [step].
   - rewrite do_drop_eq. repeat dmatch; exact I.
   - unfold do_peek. dmatch; exact I.
   - unfold do_close. destruct (close_all s) as [[s1 cbs] hang] eqn:E. apply close_all_no_hang' in E. subst. dmatch; exact I.
+  - exact I.
   - exact I.
   - exact I.
   - exact I.
@@ -815,8 +952,8 @@ Proof. intros He Hs. cbn [on_event]. rewrite He. unfold is_awaiting. rewrite Hs.
 (* a duplicated or late ready answer (the registration is not Awaiting any more) changes nothing *)
 Lemma ready_answer_not_awaiting_sub corr chstat s e :
   lookup corr (subs s) = Some e -> e_status e <> Awaiting -> on_event (EvSubReady corr chstat) s = (s, [], false).
-Proof. intros He Hs. cbn [on_event]. rewrite He. unfold is_awaiting. destruct (e_status e); [congruence| |]; reflexivity. Qed.
+Proof. intros He Hs. cbn [on_event]. rewrite He. unfold is_awaiting. destruct (e_status e); [congruence| | |]; reflexivity. Qed.
 Lemma ready_answer_not_awaiting_pub corr orig stream session limit chstat s e :
   lookup corr (pubs s) = Some e -> e_status e <> Awaiting ->
   on_event (EvPubReady corr orig stream session limit chstat) s = (s, [], false).
-Proof. intros He Hs. cbn [on_event]. rewrite He. unfold is_awaiting. destruct (e_status e); [congruence| |]; reflexivity. Qed.
+Proof. intros He Hs. cbn [on_event]. rewrite He. unfold is_awaiting. destruct (e_status e); [congruence| | |]; reflexivity. Qed.
